@@ -198,7 +198,7 @@ has no C05 entry. -/
 theorem spec_order_clauses_pass_on_model (cfg : Cfg) (ok : CfgOK cfg) (hfuel : cfg.fuel = 0) (hperm : OrdPerm cfg)
     (hmt : cfg.mtClosed ≠ cfg.allTypes) (rs : List Round) (hwf : RoundsWF rs) (hi : IncRounds 0 rs) :
     (Spec.runSpec cfg rs (Pyrtma.Drv.Manager.modelRun cfg rs).1 none).errs.filter (·.1 == "C05") = [] :=
-  spec_passes_on_model ok hfuel hperm hmt rs hwf "C05" (by simp [proven]) (fun _ => hi)
+  spec_passes_on_model ok hfuel hperm hmt rs hwf "C05" (by simp [provenCore]) (fun _ => hi)
 
 /-! ### Non-vacuity -/
 /-- two subscribers of type 5000, two frames published: both get frame 3 before frame 4 -/
